@@ -77,6 +77,63 @@ func VC06INT(im, n int) {
 	}
 }
 
+// Two acceptances in a row on the same CPU object, the second on a fresh
+// memory: after a request of kind k1 was accepted (the handler has not
+// returned), the host attaches another memory (bank switch), re-enables
+// interrupts and a request of kind k2 arrives.  It is accepted like the first
+// one - an NMI always, a maskable one because IFF1 is set - and all its
+// accesses go to the memory attached now.  kinds: 0 NMI, 1 mode 1, 2 mode 0 + RST 38h
+func VC06AcceptTwice(k1, k2 int) {
+	var s States
+	vHavoc(&s, "s")
+	s.IFF1 = true
+	busA := vNewBus("bus")
+	cnt := &vCounter{}
+	cpu := &CPU{States: s, Memory: busA, IO: busA, RETNHandler: cnt, RETIHandler: cnt}
+	raise := func(k int) {
+		switch k {
+		case 0:
+			cpu.Interrupt = NMIInterrupt()
+		case 1:
+			cpu.IM = 1
+			cpu.Interrupt = IM1Interrupt()
+		default:
+			cpu.IM = 0
+			cpu.Interrupt = IM0Interrupt(0xff)
+		}
+	}
+	raise(k1)
+	cpu.Step()
+	vAssert("first-consumed", cpu.Interrupt == nil)
+	busB := vNewBus("busB")
+	sb := busB.Fork("specB")
+	cpu.Memory, cpu.IO = busB, busB
+	cpu.IFF1 = true
+	raise(k2)
+	mid := cpu.States
+	busA.ResetTrace()
+	cpu.Step()
+	want := mid
+	want.SP = mid.SP - 2
+	want.IFF1 = false
+	if k2 == 0 {
+		want.PC, want.IFF2 = 0x0066, mid.IFF1
+	} else {
+		want.PC, want.IFF2 = 0x0038, false
+	}
+	vAssert("second-consumed", cpu.Interrupt == nil)
+	vAssert("second-state", vEqModR(cpu.States, want))
+	vAssert("old-memory-untouched", busA.Len() == 0)
+	vAssert("two-stack-writes", vAnd(busB.Len() == 2, vAnd(busB.Kind(0) == 1, busB.Kind(1) == 1)))
+	if k2 != 2 {
+		// (which return address mode 0 pushes is C07's subject)
+		specPush(&mid, sb, mid.PC)
+		probe := vU16("probe")
+		vAssert("second-mem", busB.Peek(probe) == sb.Peek(probe))
+	}
+	vAssert("handlers", vAnd(cnt.retn == 0, cnt.reti == 0))
+}
+
 // Mode 0 with RST p supplied.  Which return address is pushed is C07's
 // subject: here only that exactly two stack bytes are written.
 func VC06IM0RST(p int) {
